@@ -177,4 +177,34 @@ mod verif_c01_wit {
             }
         }
     }
+
+    /// C01 (edge-oriented k-shortest-path queries): every returned route starts with the origin edge, ends with the destination edge and is a contiguous walk --
+    /// for every ordered pair of distinct edges of a one-way ring with a chord (pairs that are consecutive, "around the block", or far apart)
+    #[test]
+    fn c01_wit_ksp_edge_oriented_routes_are_walks() {
+        // one-way ring 0 -> 1 -> 2 -> 3 -> 0 with a chord 1 -> 3 and a spur 2 -> 4 -> 0
+        let edges = [(0, 1, 1.0), (1, 2, 1.0), (2, 3, 1.0), (3, 0, 1.0), (1, 3, 3.0), (2, 4, 1.0), (4, 0, 1.0)];
+        let si = W::instance(W::graph(5, &edges), Arc::new(NoRestriction {}), TerminationModel::IterationsLimit { limit: 10000 });
+        let q = serde_json::json!({});
+        let algs = [
+            SearchAlgorithm::Yens { k: 2, underlying: Box::new(SearchAlgorithm::Dijkstra), similarity: None, termination: None },
+            SearchAlgorithm::KspSingleVia { k: 2, underlying: Box::new(SearchAlgorithm::Dijkstra), similarity: None, termination: None },
+        ];
+        let mut checked = 0;
+        for alg in algs.iter() {
+            for o in 0..edges.len() { for d in 0..edges.len() { if o != d {
+                let r = match alg.run_edge_oriented(EdgeId(o), Some(EdgeId(d)), &q, &Direction::Forward, &si) { Ok(r) => r, Err(_) => continue };
+                for route in r.routes.iter() {
+                    let ids: Vec<usize> = route.iter().map(|e| e.edge_id.0).collect();
+                    assert_eq!(ids.first(), Some(&o), "edge {} -> edge {}: the route {:?} must start with the origin edge", o, d, ids);
+                    assert_eq!(ids.last(), Some(&d), "edge {} -> edge {}: the route {:?} must end with the destination edge", o, d, ids);
+                    for w in ids.windows(2) {
+                        assert_eq!(edges[w[0]].1, edges[w[1]].0, "edge {} -> edge {}: the route {:?} has a gap between edges {} and {}", o, d, ids, w[0], w[1]);
+                    }
+                    checked += 1;
+                }
+            } } }
+        }
+        assert!(checked >= 40, "only {} routes were returned and checked", checked);
+    }
 }
